@@ -257,6 +257,19 @@ CHECKS = {
         TRUSTED + "; a provider on the LEFT of a converter-level operator has no documented meaning and is not claimed",
         "DESIGN.md 4/C19",
     ),
+    "C20": (
+        "model_checking",
+        "spec/Picker.tla models ownership of picks by chunk cores and the block-local -> global mapping; TLC proves, for "
+        "every extent 6..24, depth 1..6, every partition into <= 3 chunks and every particle voxel, that each particle is "
+        "reported exactly once at its true position, and characterises the historical duplication/displacement exactly; "
+        "the emitted 3-D chunk families (incl. chunks smaller than the overlap depth) are replayed: images with planted "
+        "blobs or planted Rot24-rotated templates are picked by LoGPicker, DoGPicker and ZNCCTemplateMatcher as numpy "
+        "arrays and under every dask chunking, at several scales and dtypes, and the pick set (positions, rotations, no "
+        "duplicates, no extra picks) must equal the planted set.",
+        "TLA+ spec Picker.tla model-checked by TLC; emitted chunk families replayed on the real pickers against planted particle sets",
+        TRUSTED + "; blob sizes and spacing above the pickers' exclusion distance",
+        "DESIGN.md 4/C20",
+    ),
 }
 
 REASON_TODO = "check not built yet in this round (planned: see DESIGN.md section 4)"
